@@ -257,6 +257,59 @@ def q1c(ms: int, ma: int, mb: int, ea: bool, eb: bool, ba: int, bb: int, hs: int
     return q.run(_q1c, (ms, ma, mb, ea, eb, ba, bb, hs))
 
 
+# ---------------------------------------------------------------- Q1l declared files that are symbolic links
+def _q1l(ms, ml, ma, mo, which, ea):
+    """Target A: input src, output a.  which 0: src is a symbolic link (own time ml) to data/raw (time ms);
+    1: the output a is a link (own time ml) to store/a (time ma); 2: a is a dangling link (the output does not exist);
+    3: both are links.  What counts is the file a path refers to (os.stat), never the link's own time."""
+    if not q.in_range(which, 4):
+        return q.SKIP
+    wh = q.pick([0, 1, 2, 3], which)
+    ea = True if ea else False
+    w = vfs.VFS()
+    if wh in (0, 3):
+        w.add(P + "data/raw", ms)
+        w.links[P + "src"] = P + "data/raw"
+        w.link_mtime[P + "src"] = ml
+    else:
+        w.add(P + "src", ms)
+    if wh in (1, 3):
+        if ea:
+            w.add(P + "store/a", ma)
+        w.dirs.add(P + "store")
+        w.links[P + "a"] = P + "store/a"
+        w.link_mtime[P + "a"] = mo
+    elif wh == 2:
+        w.links[P + "a"] = P + "store/gone"
+        w.link_mtime[P + "a"] = mo
+        ea = False
+    elif ea:
+        w.add(P + "a", ma)
+    vfs.install(w)
+    try:
+        A = Target(name="A", inputs=["src"], outputs=["a"], options={}, working_dir="/vfs/p", spec="make a")
+        fs = CachedFilesystem()
+        graph = Graph.from_targets({"A": A}, fs)
+        smap = get_status_map(graph, fs, NoopSpecHashes(), RecBackend({}))
+        want = _oracle_completed(1, 1, [ms], [ma], [ea], False)
+        if (smap[A] == Status.COMPLETED) != want:
+            return "link case %d: A shown %s, make-spec completed=%s (file times src %s, a %s; link times %s / %s)" % (wh, smap[A].name, want, ms, ma, ml, mo)
+        be2 = RecBackend({})
+        submit_workflow(graph.endpoints(), graph, CachedFilesystem(), NoopSpecHashes(), be2)
+        if (len(be2.submitted) == 0) != want:
+            return "link case %d: run submitted %s, make-spec completed=%s" % (wh, be2.submitted, want)
+        return ""
+    finally:
+        vfs.uninstall()
+
+
+def q1l(ms: int, ml: int, ma: int, mo: int, which: int, ea: bool) -> str:
+    """
+    post: _ == ""
+    """
+    return q.run(_q1l, (ms, ml, ma, mo, which, ea))
+
+
 # ---------------------------------------------------------------- Q1d snapshot of the file system
 def _q1d(i_first, i_later, o_first, o_later, eo):
     """os.stat returns a different mtime on every later call (files change while gwf runs):
@@ -316,6 +369,8 @@ QUERIES = [
               "varied on one side at a time (the other side flat list); thorough adds inputs x outputs shapes jointly for (1,1) and (0,0)"},
     {"name": "Q1c", "fn": q1c, "shards": [{}, {"subsec": True}], "timeout": {"quick": 400, "thorough": 900},
      "bound": "chain src->A->B over the VFS; symbolic mtimes/existence; backend state unknown/completed per target; 4 hash situations"},
+    {"name": "Q1l", "fn": q1l, "shards": [{}], "timeout": 300,
+     "bound": "1 target, 1 input, 1 output; the input and/or the output is a symbolic link (incl. a dangling one) whose own modification time is a further symbolic int: only the time of the file referred to counts"},
     {"name": "Q1d", "fn": q1d, "shards": [{}], "timeout": 120,
      "bound": "1 input, 1 output, two should_run calls on one CachedFilesystem, os.stat answering differently from the 2nd call on"},
 ]
